@@ -94,12 +94,10 @@ def inproc(ctx):
         evs = F.flatten(fo)
         ms = cfg.get("max_stack") or 1024
         thr = cfg.get("threshold") or 0
-        chk = positive(fo) or thr > 0
+        chk = True
         # with a threshold the overflow flush forces records (modelled, not in the spec): correspondence only
         if thr > 0 and height(fo) > ms:
             chk = False
-        if thr == 0 and not positive(fo):
-            chk = False   # zero-duration calls are dropped even with threshold 0 (C02_zero_duration; model-faithful)
         tags = []
         if height(fo) > ms:
             tags.append("overflow")
@@ -130,9 +128,7 @@ def inproc(ctx):
             if "fast" in variant:
                 cfg.pop("depth", None)      # the fast variants have no depth filter
             add(cfg, fo, F.flatten(fo), "variant", variant=variant,
-                check=(positive(fo) or (cfg.get("threshold") or 0) > 0) and
-                not ((cfg.get("threshold") or 0) > 0 and height(fo) > (cfg.get("max_stack") or 1024))
-                and ((cfg.get("threshold") or 0) > 0 or positive(fo)))
+                check=not ((cfg.get("threshold") or 0) > 0 and height(fo) > (cfg.get("max_stack") or 1024)))
     # 5. filtered recordings (any -F/-N/-C/-D/-t/-Z and depth=/time=/size=/trace triggers, no trace_on/off):
     #    the stream must be an embedded sub-history (theorem C02_filtered_trace_is_subhistory, checker ok_emb)
     from . import c05 as _c05
@@ -216,29 +212,32 @@ def depth_field_regression(ctx):
                           {"item": k, "note": "cases: 1100 pg, 1100 cyg, 1025 pg, 1023 pg (in this order)"}, False)
 
 
-KEY_ZERO = "zero-duration-dropped"
-
-
-def known_zero_duration(ctx):
-    """KNOWN FINDING witness: a call whose entry and exit hooks read the same clock value (coarse clock source) and
-    that has no recorded callee is not recorded at all, even without any -t option: mcount_exit_filter_record writes a
-    frame only if end_time - start_time > threshold (strict) or its ENTRY is already written"""
+def zero_duration_regression(ctx):
+    """repaired defect zero-duration-dropped (/repo: end - start >= threshold): a call whose entry and exit hooks read the
+    same clock value is recorded like any other, also when it runs exactly the -t threshold"""
     h = mch.Harness(ctx)
-    fo = [F.Call(0, 10, 20, [F.Call(1, 12, 12), F.Call(2, 13, 14)])]
-    cfg = {"shape": "pg", "trig": {}}
-    res = mcgen.run_case(h, cfg, F.flatten(fo))
-    defs = "Definition c := %s.\nDefinition full := list_eqb seen_eqb %s (map ideal (flat_map (history 0) %s)).\n" % (
-        mcgen.case_term(cfg, F.flatten(fo), res), mcgen.coq_recs(res["recs"]), F.coq_forest(fo))
-    r = coq.run_cases(ctx, "c02_zero", mcgen.PRE, defs, [("agree", "agree4 c"), ("full", "full")], timeout=600)
-    ctx.case(key="known-zero-duration", tags=["known:zero-duration"], size=6)
+    items, defs = [], ""
+    for n, (thr, fo) in enumerate([
+            (0, [F.Call(0, 10, 20, [F.Call(1, 12, 12), F.Call(2, 13, 14)])]),
+            (0, [F.Call(0, 10, 10)]),
+            (5, [F.Call(0, 10, 40, [F.Call(1, 12, 17), F.Call(2, 20, 24), F.Call(3, 30, 36)])])]):
+        cfg = {"shape": "pg" if n != 1 else "cyg", "trig": {}}
+        if thr:
+            cfg["threshold"] = thr
+        res = mcgen.run_case(h, cfg, F.flatten(fo))
+        defs += "Definition c%d := %s.\nDefinition chk%d := %s.\n" % (n, mcgen.case_term(cfg, F.flatten(fo), res),
+                                                                     n, coq_plain_check(cfg, fo, res["recs"]))
+        items += [("agree%d" % n, "agree4 c%d" % n), ("ok%d" % n, "chk%d" % n)]
+        ctx.case(key="zero-duration-%d" % n, tags=["zero-duration" if not thr else "exactly-threshold"], size=2 * len(F.flatten(fo)))
+    r = coq.run_cases(ctx, "c02_zero", mcgen.PRE, defs, items, timeout=600)
     if r is None:
         return
-    if r["agree"] != "true":
-        ctx.violation("model and libmcount disagree on the zero-duration witness",
-                      {"cfg": cfg, "forest": [c.to_json() for c in fo]}, False)
-    ctx.known_finding(KEY_ZERO, "a call whose two clock readings are equal is not recorded (witness: main{f1 [12,12]; f2 "
-                      "[13,14]}: %d records instead of 6)" % len(res["recs"]),
-                      still_fails=(r["full"] != "true"), replay={"cfg": cfg, "forest": [c.to_json() for c in fo]})
+    for k, _ in items:
+        if r[k] != "true":
+            ctx.violation("zero-duration / exactly-threshold call: %s" % ("model and libmcount disagree" if k.startswith("agree")
+                          else "a call whose two clock readings are equal (or that runs exactly the threshold) is not recorded"),
+                          {"item": k, "cases": "0: main{f1 [12,12]; f2 [13,14]} -t 0; 1: main [10,10] cyg; 2: -t 5 with calls of 5, 4, 6 ticks"},
+                          not k.startswith("agree"))
 
 
 def threads_and_fork(ctx):
@@ -667,7 +666,7 @@ def run(ctx):
     objdir = build.get_build("plain", ctx.log)
     inproc(ctx)
     depth_field_regression(ctx)
-    known_zero_duration(ctx)
+    zero_duration_regression(ctx)
     threads_and_fork(ctx)
     e2e(ctx, objdir)
 
